@@ -55,8 +55,36 @@ std::string arbitrary_bytes(Ctx& c) {
   return s;
 }
 
+// UTF-8 sequences that occur in (or are confusable with) the spellings of unit tables
+static const char* const kTokens[] = {"\xC2\xB5" /* micro sign */, "\xCE\xBC" /* greek mu */, "\xC2\xB0" /* degree */, "\xC2\xB7" /* middle dot */,
+                                      "\xC2\xB2", "\xC2\xB3", "\xE2\x8B\x85" /* dot operator */, "\xCE\xA9" /* ohm */, "\xE2\x84\xA6", "\xE2\x84\x83",
+                                      "\xC2\xA0", "\xEF\xBB\xBF", "\xE2\x81\xBB\xC2\xB9", "^", "/", "*", "-", "(", ")", "e", "E", "s", "S"};
+static const int kNTokens = static_cast<int>(sizeof(kTokens) / sizeof(kTokens[0]));
+
+static void replace_all(std::string& s, const std::string& a, const std::string& b) {
+  for (size_t pos = 0; (pos = s.find(a, pos)) != std::string::npos; pos += b.size()) s.replace(pos, a.size(), b);
+}
+
 std::string mutate(Ctx& c, const std::string& in) {
   std::string s = in;
+  // structure-aware pass (half of the time): swap look-alike multi-byte characters, then maybe leave a
+  // multi-byte sequence incomplete at the end or the beginning
+  if (c.below(2)) {
+    switch (c.below(5)) {
+      case 0: replace_all(s, "\xCE\xBC", "\xC2\xB5"); break;
+      case 1: replace_all(s, "\xC2\xB7", "\xE2\x8B\x85"); break;
+      case 2: replace_all(s, "\xC2\xB0", "\xC2\xBA"); break;
+      case 3: s.insert(c.below(s.size() + 1), kTokens[c.below(static_cast<std::uint64_t>(kNTokens))]); break;
+      default: if (!s.empty()) { size_t p = c.below(s.size()); s.replace(p, 1, kTokens[c.below(static_cast<std::uint64_t>(kNTokens))]); } break;
+    }
+    switch (c.below(6)) {
+      case 0: s.push_back(static_cast<char>("\xC2\xCE\xE2\xF0\xC3\xEF"[c.below(6)])); break;       // lone lead byte at the end
+      case 1: { size_t i = s.size(); while (i > 0 && (static_cast<unsigned char>(s[i - 1]) & 0xC0) == 0x80) --i; if (i > 0 && i < s.size()) s.resize(i); } break;  // cut continuation bytes
+      case 2: s.insert(0, 1, static_cast<char>(0x80 + c.below(64))); break;                             // stray continuation byte first
+      default: break;
+    }
+    return s;
+  }
   switch (c.below(8)) {
     case 0: if (!s.empty()) s[c.below(s.size())] = static_cast<char>(c.next() & 0xFF); break;
     case 1: if (!s.empty()) s.erase(c.below(s.size()), 1); break;
@@ -257,7 +285,7 @@ void reset_slot(int s, long budget, int mode, int state, unsigned flags) {
   vrt::StreamSlot& sl = *g_slots[s];
   sl.buf.budget = budget;
   sl.buf.mode = mode;
-  if (flags & 1) sl.os.width(static_cast<std::streamsize>(3 + (flags >> 8) % 40));
+  if (flags & 1) sl.os.width(static_cast<std::streamsize>((flags >> 14) & 1 ? -static_cast<long>((flags >> 8) % 40) - 1 : 3 + (flags >> 8) % 40));
   if (flags & 2) sl.os.fill('*');
   if (flags & 4) sl.os.setf(std::ios::left, std::ios::adjustfield);
   if (flags & 8) sl.os.setf(std::ios::unitbuf);
@@ -384,6 +412,17 @@ void execute(const OpEntry& e, std::uint64_t seed, long p0, long p1, int slot, c
       Outcome r1 = run_once(e, c, seed, p0, p1, &nb);
       ++st.execs; ++st.fired; ++st.sink_refused;
       check_outcome(e, r1, false, "sink:nullbuf", st);
+      for (long w : {-1L, -4L, static_cast<long>(std::numeric_limits<int>::min()), 70000L}) {
+        g_phase = "E1-width";
+        Scratch sw;
+        sw.os.width(static_cast<std::streamsize>(w));   // a negative width is legal: inserters treat it as "no padding"
+        if (w == -4) sw.os.setf(std::ios::left, std::ios::adjustfield);
+        Outcome rw = run_once(e, c, seed, p0, p1, &sw.os);
+        ++st.execs;
+        char fd[48];
+        std::snprintf(fd, sizeof fd, "sink:width:%ld", w);
+        check_outcome(e, rw, false, fd, st);
+      }
       g_phase = "E1-flags";
       Scratch s2;
       s2.os.width(40); s2.os.fill('*'); s2.os.setf(std::ios::left | std::ios::showpos | std::ios::uppercase | std::ios::unitbuf); s2.os.precision(2);
